@@ -43,7 +43,7 @@ def real_cases():
 
 def cases(tier, seed):
     rng = np.random.default_rng([8, seed])
-    n = 420 if tier == "quick" else 14000
+    n = 420 if tier == "quick" else 60000
     out = []
     for j in range(n):
         out.append({"kind": ["self", "aba", "site"][j % 3], "s": int(rng.integers(1 << 30)), "cell": planted.CELL_CLASSES[(j // 3) % len(planted.CELL_CLASSES)],
@@ -227,7 +227,7 @@ def run_case(case, ctx):
 
 def requirements(stats, tier):
     need = []
-    if stats.get("self_replacements") < (100 if tier == "quick" else 3000) or stats.get("restorations_checked") < (100 if tier == "quick" else 3000):
+    if stats.get("self_replacements") < (100 if tier == "quick" else 12000) or stats.get("restorations_checked") < (100 if tier == "quick" else 12000):
         need.append("self replacements %d, restorations %d" % (stats.get("self_replacements"), stats.get("restorations_checked")))
     if stats.get("term_sets_compared") < 200:
         need.append("term sets compared only %d times" % stats.get("term_sets_compared"))
